@@ -7,6 +7,15 @@ From FxV Require Import model.M_ClaimHash proofs.P_ClaimHash model.M_AttestExec.
 Import ListNotations.
 Open Scope Z_scope.
 
+Lemma nodup_snoc : forall (l : list Z) x, NoDup l -> ~ In x l -> NoDup (l ++ [x]).
+Proof.
+  induction l as [|a l IH]; intros x H N; cbn [app].
+  - constructor; [intros []|constructor].
+  - inversion H; subst. constructor.
+    + intros Hi. apply in_app_or in Hi as [Hi|[Hi|[]]]; [contradiction|]. subst. apply N. left. reflexivity.
+    + apply IH; [assumption|]. intros Hi. apply N. right. exact Hi.
+Qed.
+
 Section AttestProofs.
   Variable C : Type.
   Variable nonce : C -> Z.
@@ -122,6 +131,105 @@ Section AttestProofs.
     intros ops o c st' e H.
     destruct (executed_is_current_voter _ o c st' e (run_inv ops _ init_inv) H) as (E & a & H1 & H2 & H3 & _ & H5).
     split; [exact E|]. exists a. auto.
+  Qed.
+
+  (* ---------- the executed object is backed by a quorum of DISTINCT oracles, for every interleaving of votes
+     over any number of event nonces (votes for n+1 may arrive, and reach quorum power, before n is observed) ---------- *)
+
+  Definition sum_power (vs : list (Z * C)) : Z := fold_right (fun oc acc => power (fst oc) + acc) 0 vs.
+
+  Lemma sum_power_nonneg : (forall o, 0 <= power o) -> forall vs, 0 <= sum_power vs.
+  Proof.
+    intros P. induction vs as [|[o c] r IH]; cbn [sum_power fold_right fst]; [lia|].
+    fold (sum_power r). specialize (P o). lia.
+  Qed.
+
+  Lemma tally_sum : (forall o, 0 <= power o) ->
+    forall vs acc, tally C power required acc vs = true -> required <= acc + sum_power vs.
+  Proof.
+    intros P. induction vs as [|[o c] r IH]; intros acc H; cbn [tally] in H; [discriminate H|].
+    cbn [sum_power fold_right fst]. fold (sum_power r).
+    destruct (acc + power o <? required) eqn:E.
+    - apply IH in H. lia.
+    - apply Z.ltb_ge in E. pose proof (sum_power_nonneg P r). lia.
+  Qed.
+
+  (* every recorded voter has a cursor at or beyond the nonce of the attestation it voted in *)
+  Definition cursor_ok (st : state) : Prop :=
+    forall a, In a (atts C st) -> forall o c, In (o, c) (a_votes C a) ->
+      exists n, lastof o (last_by C st) = Some n /\ a_nonce C a <= n.
+  Definition nodup_ok (st : state) : Prop :=
+    forall a, In a (atts C st) -> NoDup (map fst (a_votes C a)).
+
+  Lemma vote_cursor_nodup : forall st o c, inv st -> cursor_ok st -> nodup_ok st ->
+    cursor_ok (fst (vote st o c)) /\ nodup_ok (fst (vote st o c)).
+  Proof.
+    intros st o c I CU ND. unfold M_AttestExec.vote.
+    destruct (negb (nonce c =? last_nonce C st o + 1)) eqn:G; [cbn [fst]; split; [exact CU|exact ND]|].
+    apply negb_false_iff in G. apply Z.eqb_eq in G.
+    fold (landed st c). destruct (landed_ok st c I) as (A & N & K).
+    assert (Hland : forall o' c', In (o', c') (a_votes C (landed st c)) ->
+                      exists n, lastof o' (last_by C st) = Some n /\ nonce c <= n).
+    { intros o' c' Hv. unfold landed in Hv, N. destruct (find _ _) as [a|] eqn:F; [|destruct Hv].
+      apply find_some in F as [Fi _]. destruct (CU a Fi o' c' Hv) as (n & L & Le). exists n. split; [exact L|lia]. }
+    cbv zeta. cbn [fst atts last_by]. split.
+    - intros a Ha o' c' Hv. cbn [last_by lastof]. apply put_in in Ha as [->|Ha].
+      + cbn [a_votes a_nonce] in *. apply in_app_or in Hv as [Hv|[Hv|[]]].
+        * destruct (Hland o' c' Hv) as (n & L & Le). cbn [lastof]. destruct (o =? o') eqn:E.
+          -- exists (nonce c). split; [reflexivity|lia].
+          -- exists n. split; [exact L|lia].
+        * injection Hv as <- <-. cbn [lastof]. rewrite Z.eqb_refl. exists (nonce c). split; [reflexivity|lia].
+      + destruct (CU a Ha o' c' Hv) as (n & L & Le). cbn [lastof]. destruct (o =? o') eqn:E.
+        * apply Z.eqb_eq in E. subst o'. exists (nonce c). split; [reflexivity|].
+          unfold last_nonce in G. rewrite L in G. lia.
+        * exists n. split; assumption.
+    - intros a Ha. apply put_in in Ha as [->|Ha]; [|apply ND; exact Ha].
+      cbn [a_votes]. rewrite map_app. cbn [map fst].
+      assert (NDl : NoDup (map fst (a_votes C (landed st c)))).
+      { unfold landed. destruct (find _ _) as [a|] eqn:F; [|constructor].
+        apply find_some in F as [Fi _]. apply ND. exact Fi. }
+      apply nodup_snoc; [exact NDl|].
+      intros Hin. apply in_map_iff in Hin as ([o' c'] & Eo & Hv). cbn [fst] in Eo. subst o'.
+      destruct (Hland o c' Hv) as (n & L & Le). unfold last_nonce in G. rewrite L in G. lia.
+  Qed.
+
+  Theorem executed_by_quorum : forall ops o c st' e,
+    (forall o', 0 <= power o') ->
+    vote (fst (run (init C) ops)) o c = (st', Executed e) ->
+    e = c /\
+    exists a, In a (atts C st') /\ a_observed C a = true /\ In (o, c) (a_votes C a) /\
+              (forall o' c', In (o', c') (a_votes C a) -> nonce c' = nonce e /\ key c' = key e) /\
+              NoDup (map fst (a_votes C a)) /\ required <= sum_power (a_votes C a).
+  Proof.
+    intros ops o c st' e P H.
+    assert (ALL : inv (fst (run (init C) ops)) /\ cursor_ok (fst (run (init C) ops)) /\ nodup_ok (fst (run (init C) ops))).
+    { assert (G : forall ops st, inv st -> cursor_ok st -> nodup_ok st ->
+                    inv (fst (run st ops)) /\ cursor_ok (fst (run st ops)) /\ nodup_ok (fst (run st ops))).
+      { induction ops0 as [|[o0 c0] r IH]; intros st I CU ND; cbn [M_AttestExec.run]; [auto|].
+        pose proof (vote_inv st o0 c0 I) as I1. destruct (vote_cursor_nodup st o0 c0 I CU ND) as [CU1 ND1].
+        destruct (vote st o0 c0) as [st1 out]. cbn [fst] in *.
+        specialize (IH st1 I1 CU1 ND1). destruct (run st1 r) as [st2 outs]. exact IH. }
+      apply G; [apply init_inv|intros a []|intros a []]. }
+    destruct ALL as (I & CU & ND).
+    remember (fst (run (init C) ops)) as st eqn:Est. clear Est.
+    destruct (executed_is_current_voter _ o c st' e I H) as (E & a & H1 & H2 & H3 & _ & H5).
+    split; [exact E|]. exists a.
+    split; [exact H1|]. split; [exact H2|]. split; [exact H3|]. split; [exact H5|]. split.
+    - destruct (vote_cursor_nodup _ o c I CU ND) as [_ ND']. rewrite H in ND'. cbn [fst] in ND'. apply ND'. exact H1.
+    - (* the tally that fired ran over exactly the votes stored in [a] *)
+      unfold M_AttestExec.vote in H.
+      destruct (negb (nonce c =? last_nonce C st o + 1)) eqn:G0; [discriminate H|].
+      apply negb_false_iff in G0. apply Z.eqb_eq in G0.
+      fold (landed st c) in H.
+      destruct (negb (a_observed C (landed st c)) && (nonce c =? last_observed C st + 1)
+                && tally C power required 0 (a_votes C (landed st c) ++ [(o, c)])) eqn:F; [|discriminate H].
+      apply andb_prop in F as [_ T]. apply (tally_sum P) in T.
+      injection H as Hst _. subst st'. cbn [atts] in H1.
+      apply put_in in H1 as [->|H1]; [cbn [a_votes]; lia|].
+      (* otherwise (o, c) would already have been recorded in an old attestation: impossible by the cursor *)
+      exfalso. destruct (CU a H1 o c H3) as (n & L & Le).
+      destruct (I a H1 o c H3) as [Na _].
+      unfold last_nonce in G0. rewrite L in G0. lia.
   Qed.
 
   (* with payloads determined by the hash class: the executed payload is everybody's payload *)
